@@ -896,6 +896,7 @@ func main() {
 	wmOut := flag.String("wm", "", "output Lean file: translated watermark message handler")
 	levelOut := flag.String("level", "", "output Lean file: translated discardStaleEntries")
 	dbOut := flag.String("db", "", "output Lean file: translated DB.search")
+	lsmOut := flag.String("lsm", "", "output Lean file: translated searchLowerBound")
 	flag.Parse()
 	if *locktable != "" {
 		genLockTable(*repo, *locktable)
@@ -917,6 +918,9 @@ func main() {
 	}
 	if *dbOut != "" {
 		genDB(*repo, *dbOut)
+	}
+	if *lsmOut != "" {
+		genLSM(*repo, *lsmOut)
 	}
 	if *skeleton != "" {
 		genSkeleton(*repo, *skeleton)
